@@ -179,4 +179,32 @@ def Routes.find (rs : Routes) (t : String) : Option Bound := (rs.find? (·.1 == 
 /-- the router after a history of `add_route` calls on a fresh app -/
 def routesOf (combined : List Method) (hist : List RouteReg) : Routes := hist.foldl (addRouteCall combined) []
 
+/-! ### addition of the fifth strengthening round: what the framework's own answers do to the response object that EARLIER STAGES
+    (the `response_type` initializer, `process_request` / `process_resource` middleware) hand them -/
+
+/-- the two fields of the response object that dispatch's own answers touch: `resp.status` (as a code) and the value of the
+    `Allow` header, if any -/
+structure Resp where
+  status : Nat := 200
+  allow : Option String := none
+deriving DecidableEq, Repr
+
+/-- the response after the chosen responder ran on `pre` (and, for the three that raise, after `_compose_error_response`):
+    * `create_default_options` (both flavours): `resp.status = HTTP_200`, `resp.set_header('Allow', ', '.join(allowed))`;
+    * `create_method_not_allowed`: raises `HTTPMethodNotAllowed(allowed)` whose headers are `{'Allow': ', '.join(allowed)}`;
+      `_compose_error_response`: `resp.status = error.status`, `resp.set_headers(error.headers)` (replaces a present `Allow`);
+    * `bad_request` / `path_not_found`: the raised error has no headers: only the status is assigned;
+    * a resource responder / sink / static route: the application's business (the generated ones touch neither field). -/
+def answer (pre : Resp) : Responder → Resp
+  | .options al => { status := 200, allow := some (", ".intercalate al) }
+  | .notAllowed al => { status := 405, allow := some (", ".intercalate al) }
+  | .badRequest => { pre with status := 400 }
+  | .notFound => { pre with status := 404 }
+  | _ => pre
+
+/-- the responders that are falcon's own answer -/
+def Responder.isDefault : Responder → Bool
+  | .options _ | .notAllowed _ | .badRequest | .notFound => true
+  | _ => false
+
 end Dp
